@@ -11,6 +11,7 @@ import (
 	"encoding/json"
 	"fmt"
 	"sort"
+	"sync"
 
 	"github.com/MixinNetwork/mixin/common"
 	"github.com/MixinNetwork/mixin/config"
@@ -42,6 +43,63 @@ func vpSOpenStore(t vpSFataler, dir string) *BadgerStore {
 		t.Fatalf("NewBadgerStore(%s): %v", dir, err)
 	}
 	return s
+}
+
+// vpSOpenSnapshotsOnly opens only the snapshot database (with the production
+// openDB options) for harnesses that never touch the cache database; opening a
+// Badger directory costs ~0.2 s (64 MB memtable arena), so this halves a reopen.
+// SyncWrites is off (production: on): the harnesses model a crash as an orderly
+// close and reopen at a call boundary, for which fsync per commit changes nothing
+// but costs most of the run time on a loaded machine.
+// Close such a store with vpSCloseSnapshotsOnly, not with Close.
+func vpSOpenSnapshotsOnly(t vpSFataler, dir string) *BadgerStore {
+	custom := vpSCustom()
+	db, err := openDB(dir+"/snapshots", false, custom)
+	if err != nil {
+		t.Fatalf("openDB(%s): %v", dir, err)
+	}
+	return &BadgerStore{custom: custom, snapshotsDB: db, mutex: new(sync.RWMutex)}
+}
+
+func vpSCloseSnapshotsOnly(s *BadgerStore) error {
+	s.closing = true
+	return s.snapshotsDB.Close()
+}
+
+// vpSWipe deletes every key of the snapshot database (and the in-memory
+// custodian cache), so that one opened store can serve many cases.
+func vpSWipe(t vpSFataler, s *BadgerStore) {
+	s.custodians.Range(func(k, _ any) bool { s.custodians.Delete(k); return true })
+	for {
+		var keys [][]byte
+		err := s.snapshotsDB.View(func(txn *badger.Txn) error {
+			opts := badger.DefaultIteratorOptions
+			opts.PrefetchValues = false
+			it := txn.NewIterator(opts)
+			defer it.Close()
+			for it.Rewind(); it.Valid() && len(keys) < 5000; it.Next() {
+				keys = append(keys, it.Item().KeyCopy(nil))
+			}
+			return nil
+		})
+		if err != nil {
+			t.Fatalf("wipe: %v", err)
+		}
+		if len(keys) == 0 {
+			return
+		}
+		err = s.snapshotsDB.Update(func(txn *badger.Txn) error {
+			for _, k := range keys {
+				if err := txn.Delete(k); err != nil {
+					return err
+				}
+			}
+			return nil
+		})
+		if err != nil {
+			t.Fatalf("wipe: %v", err)
+		}
+	}
 }
 
 // vpSCatch runs f and returns the recovered panic rendered as a string ("" when
